@@ -43,20 +43,20 @@ func c03seqExec(input string) string {
 }
 
 // bytes that matter to the readers
-var c03Pool = []byte(">>>@@@+++\n\n\n\n\r \t\v\f acgtnACGT-*IIII!~#;x0\x85\xa0\xc2\xe2\x80\x81\x9f\xe1\x9a\xe3\xa8\xaf\xff\x00")
+var c03seqPool = []byte(">>>@@@+++\n\n\n\n\r \t\v\f acgtnACGT-*IIII!~#;x0\x85\xa0\xc2\xe2\x80\x81\x9f\xe1\x9a\xe3\xa8\xaf\xff\x00")
 
-func c03Byte(g *hx.Gen) byte {
+func c03seqByte(g *hx.Gen) byte {
 	if g.Chance(0.08) {
 		return byte(g.Intn(256))
 	}
-	return c03Pool[g.Intn(len(c03Pool))]
+	return c03seqPool[g.Intn(len(c03seqPool))]
 }
 
-func c03Tmpl(g *hx.Gen) string {
+func c03seqTmpl(g *hx.Gen) string {
 	return []string{"s", "-1", "0", "0", "1", "2", "3", "4", "5"}[g.Intn(9)]
 }
 
-func c03Emit(g *hx.Gen, fastqStyle bool, tmpl string, data []byte) {
+func c03seqEmit(g *hx.Gen, fastqStyle bool, tmpl string, data []byte) {
 	if fastqStyle {
 		g.Casef("fq3 %s %s", tmpl, hx.Hex(data))
 	} else {
@@ -65,7 +65,7 @@ func c03Emit(g *hx.Gen, fastqStyle bool, tmpl string, data []byte) {
 }
 
 // a small valid file of either format and the template that reads it
-func c03Valid(g *hx.Gen, small bool) (data []byte, fastqStyle bool, tmpl string) {
+func c03seqValid(g *hx.Gen, small bool) (data []byte, fastqStyle bool, tmpl string) {
 	alpha := sioAlphabets[g.Intn(len(sioAlphabets))]
 	width := g.Pick(1, 2, 3, 5, 60)
 	if !small {
@@ -105,17 +105,17 @@ func c03Valid(g *hx.Gen, small bool) (data []byte, fastqStyle bool, tmpl string)
 	return sioWriteFasta(rs, "s", alpha, width), false, ""
 }
 
-func c03MutateBytes(g *hx.Gen, data []byte) []byte {
+func c03seqMutateBytes(g *hx.Gen, data []byte) []byte {
 	d := append([]byte(nil), data...)
 	for k := g.Pick(1, 1, 2, 3); k > 0; k-- {
 		switch g.Intn(4) {
 		case 0: // replace
 			if len(d) > 0 {
-				d[g.Intn(len(d))] = c03Byte(g)
+				d[g.Intn(len(d))] = c03seqByte(g)
 			}
 		case 1: // insert
 			i := g.Intn(len(d) + 1)
-			d = append(d[:i], append([]byte{c03Byte(g)}, d[i:]...)...)
+			d = append(d[:i], append([]byte{c03seqByte(g)}, d[i:]...)...)
 		case 2: // delete
 			if len(d) > 0 {
 				i := g.Intn(len(d))
@@ -135,7 +135,7 @@ func c03MutateBytes(g *hx.Gen, data []byte) []byte {
 	return d
 }
 
-func c03MutateLines(g *hx.Gen, data []byte) []byte {
+func c03seqMutateLines(g *hx.Gen, data []byte) []byte {
 	lines := bytes.SplitAfter(data, []byte{'\n'})
 	if len(lines) > 0 && len(lines[len(lines)-1]) == 0 {
 		lines = lines[:len(lines)-1]
@@ -158,7 +158,7 @@ func c03MutateLines(g *hx.Gen, data []byte) []byte {
 	case 4: // join with the next line
 		lines[i] = bytes.TrimRight(lines[i], "\n")
 	case 5: // blank line before
-		lines = append(lines[:i:i], append([][]byte{[]byte(pickS(g, "\n", " \n", "\r\n", "\t \n"))}, lines[i:]...)...)
+		lines = append(lines[:i:i], append([][]byte{[]byte(sioPickS(g, "\n", " \n", "\r\n", "\t \n"))}, lines[i:]...)...)
 	case 6: // split a line in two
 		if len(lines[i]) > 2 {
 			k := g.Range(1, len(lines[i])-1)
@@ -171,16 +171,16 @@ func c03MutateLines(g *hx.Gen, data []byte) []byte {
 }
 
 // one FASTQ record whose four parts are chosen independently (and may be broken)
-func c03FastqFamily(g *hx.Gen) []byte {
+func c03seqFastqFamily(g *hx.Gen) []byte {
 	var b bytes.Buffer
 	for rec := g.Pick(1, 1, 2); rec > 0; rec-- {
-		name := pickS(g, "id", "r1", "", "@x", "+y", "a")
-		desc := pickS(g, "", "", " d", " two words", "\tt")
+		name := sioPickS(g, "id", "r1", "", "@x", "+y", "a")
+		desc := sioPickS(g, "", "", " d", " two words", "\tt")
 		nl := func() {
-			b.WriteString(pickS(g, "\n", "\n", "\n", "\r\n", " \n", "\n\n", "\n \t\n"))
+			b.WriteString(sioPickS(g, "\n", "\n", "\n", "\r\n", " \n", "\n\n", "\n \t\n"))
 		}
 		if !g.Chance(0.05) {
-			fmt.Fprintf(&b, "%s%s%s", pickS(g, "@", "@", "@", "@", ">", ""), name, desc)
+			fmt.Fprintf(&b, "%s%s%s", sioPickS(g, "@", "@", "@", "@", ">", ""), name, desc)
 			nl()
 		}
 		l := g.Pick(0, 1, 2, 3, 4, 8)
@@ -205,7 +205,7 @@ func c03FastqFamily(g *hx.Gen) []byte {
 			case 4:
 				fmt.Fprintf(&b, "+%sx", name)
 			case 5:
-				b.WriteString(pickS(g, "+ ", "-", "++", "+\t"))
+				b.WriteString(sioPickS(g, "+ ", "-", "++", "+\t"))
 			}
 			nl()
 		}
@@ -230,12 +230,12 @@ func c03FastqFamily(g *hx.Gen) []byte {
 func c03seqGen(g *hx.Gen) {
 	// truncation of valid files at every byte offset
 	for f := g.Scale(20, 200); f > 0 && !g.Done(); f-- {
-		data, fq, tmpl := c03Valid(g, true)
+		data, fq, tmpl := c03seqValid(g, true)
 		if g.Chance(0.3) {
 			data = bytes.ReplaceAll(data, []byte("\n"), []byte("\r\n"))
 		}
 		for off := 0; off <= len(data) && !g.Done(); off++ {
-			c03Emit(g, fq, tmpl, data[:off])
+			c03seqEmit(g, fq, tmpl, data[:off])
 		}
 	}
 	n := g.Scale(30000, 400000)
@@ -245,25 +245,25 @@ func c03seqGen(g *hx.Gen) {
 			l := g.Pick(0, 1, 2, 3, 5, 8, 13, 21, 34, 60)
 			d := make([]byte, l)
 			for i := range d {
-				d[i] = c03Byte(g)
+				d[i] = c03seqByte(g)
 			}
-			c03Emit(g, g.Chance(0.5), c03Tmpl(g), d)
+			c03seqEmit(g, g.Chance(0.5), c03seqTmpl(g), d)
 		case 3, 4: // valid file, byte mutations
-			data, fq, tmpl := c03Valid(g, g.Chance(0.9))
-			c03Emit(g, fq, tmpl, c03MutateBytes(g, data))
+			data, fq, tmpl := c03seqValid(g, g.Chance(0.9))
+			c03seqEmit(g, fq, tmpl, c03seqMutateBytes(g, data))
 		case 5, 6: // valid file, line mutations
-			data, fq, tmpl := c03Valid(g, g.Chance(0.9))
-			d := c03MutateLines(g, data)
+			data, fq, tmpl := c03seqValid(g, g.Chance(0.9))
+			d := c03seqMutateLines(g, data)
 			if g.Chance(0.3) {
-				d = c03MutateLines(g, d)
+				d = c03seqMutateLines(g, d)
 			}
-			c03Emit(g, fq, tmpl, d)
+			c03seqEmit(g, fq, tmpl, d)
 		case 7, 8: // the FASTQ family
-			c03Emit(g, true, c03Tmpl(g), c03FastqFamily(g))
+			c03seqEmit(g, true, c03seqTmpl(g), c03seqFastqFamily(g))
 		case 9: // a valid file read by the other reader, or garbage with very long lines
 			if g.Chance(0.5) {
-				data, fq, _ := c03Valid(g, true)
-				c03Emit(g, !fq, c03Tmpl(g), data)
+				data, fq, _ := c03seqValid(g, true)
+				c03seqEmit(g, !fq, c03seqTmpl(g), data)
 			} else if g.Chance(0.6) {
 				// an unterminated last line of exactly k*4096 bytes (ReadLine delivers it as
 				// isPrefix fragments and then io.EOF), after 0..3 lines that put the reader
@@ -276,11 +276,11 @@ func c03seqGen(g *hx.Gen) {
 				}
 				for _, l := range pre[g.Intn(len(pre))] {
 					b.WriteString(l)
-					b.WriteString(pickS(g, "\n", "\r\n"))
+					b.WriteString(sioPickS(g, "\n", "\r\n"))
 				}
 				n := g.Pick(4096, 4096, 8192, 12288) + g.Pick(0, 0, 0, 1, -1, 4095)
 				last := g.Letters("acgtIII!", n)
-				last[0] = pickS(g, ">", "@", "+", "a", "I", " ")[0]
+				last[0] = sioPickS(g, ">", "@", "+", "a", "I", " ")[0]
 				if g.Chance(0.3) {
 					last[g.Pick(4095, 4094, 4096, n-1)%n] = '\r'
 				}
@@ -288,15 +288,15 @@ func c03seqGen(g *hx.Gen) {
 					last[n-1] = byte(g.Pick(' ', '\t', '\r', 0xa0))
 				}
 				b.Write(last)
-				c03Emit(g, fq, c03Tmpl(g), b.Bytes())
+				c03seqEmit(g, fq, c03seqTmpl(g), b.Bytes())
 			} else {
 				var b bytes.Buffer
 				for i := g.Pick(1, 2, 3); i > 0; i-- {
-					b.WriteString(pickS(g, ">", "@", "", "+", " "))
+					b.WriteString(sioPickS(g, ">", "@", "", "+", " "))
 					b.Write(g.Letters("acgt >@+\t", g.Pick(4090, 4095, 4096, 4097, 8192, 12000, 20000)))
-					b.WriteString(pickS(g, "\n", "\r\n", ""))
+					b.WriteString(sioPickS(g, "\n", "\r\n", ""))
 				}
-				c03Emit(g, g.Chance(0.5), c03Tmpl(g), b.Bytes())
+				c03seqEmit(g, g.Chance(0.5), c03seqTmpl(g), b.Bytes())
 			}
 		}
 	}
